@@ -6,6 +6,10 @@ ChainMods == {"a", "b", "c"}
 ChainImports == [a |-> <<"b">>, b |-> <<"c">>, c |-> <<>>]
 ChainTargets == <<"a", "b", "c">>
 
+PairMods == {"b", "c"}
+PairImports == [b |-> <<"c">>, c |-> <<>>]
+PairTargets == <<"b", "c">>
+
 DiamondMods == {"a", "b", "c", "d"}
 DiamondImports == [a |-> <<"b", "c">>, b |-> <<"d">>, c |-> <<"d">>, d |-> <<>>]
 DiamondTargets == <<"d", "a", "c", "b">>
@@ -13,5 +17,8 @@ DiamondTargets == <<"d", "a", "c", "b">>
 V2 == 1..2
 Body2 == [v \in V2 |-> v]
 V3 == 1..3
+\* three variants with three different bodies (a stale tree of one of them is visible in the output)
+V124 == {1, 2, 4}
+Body124 == [v \in V124 |-> v]
 Body3 == [v \in V3 |-> IF v = 3 THEN 1 ELSE v]     \* variant 3 = variant 1 with a different layout
 =============================================================================
